@@ -613,6 +613,25 @@ func (o c16OracleArgs) toArgs(discard bool) c16Args {
 		}
 		s.YEnv = y
 	}
+	if o.ListForm && len(o.Labels) > 0 {
+		// whole loads: `labels` in its sequence form, the first key once more in front as a bare element (the empty
+		// value) — the later `k=v` element must win (Labels.DecodeMapstructure; the Project methods are given o.Labels)
+		items := []c16Item{{K: *o.Labels[0][0]}}
+		for _, kv := range o.Labels {
+			if kv[1] == nil {
+				items = nil
+				break
+			}
+			if *kv[1] == "" {
+				items = append(items, c16Item{K: *kv[0]}) // the empty value, written as a bare element
+			} else {
+				items = append(items, c16Item{K: *kv[0], V: kv[1]})
+			}
+		}
+		if items != nil {
+			s.YLabels = &c16YEnv{List: &items}
+		}
+	}
 	a.Services = []c16Service{s, sib}
 	return a
 }
